@@ -40,16 +40,17 @@ class Fork:
 
 def job(arg):
     """one configuration; when the executed code compares symbolic values by order and the property's policy does not decide it, the
-    configuration is run once per outcome (at most 64 runs) and the results are merged"""
+    configuration is run once per outcome (at most 16 runs / 150 s) and the results are merged"""
     pending, merged, runs = [[]], None, 0
-    while pending and runs < 64:
-        dec = pending.pop(0)
+    t_job = time.time()
+    while pending and runs < 16 and time.time() - t_job < 150:
+        dec = pending.pop()         # depth first, the outcome 'True' of the newest comparison first (the special-case branch of `if x <= tol:`)
         runs += 1
         Sym.FORK = Fork(dec)
         try:
             res = job1(arg, Sym.FORK)
         except NeedDecision:
-            pending += [dec + [True], dec + [False]]
+            pending += [dec + [False], dec + [True]]
             continue
         finally:
             fork, Sym.FORK = Sym.FORK, None
@@ -67,10 +68,13 @@ def job(arg):
             for k in ('sat', 'unknown'):
                 merged[k] = merged.get(k, []) + res.get(k, [])
             merged.setdefault('extra', {}).setdefault('ordering_branches', []).extend(res.get('extra', {}).get('ordering_branches', []))
+    if merged is not None and pending and merged.get('sat'):
+        merged.setdefault('extra', {})['ordering_branches_not_run'] = len(pending)
+        return merged           # a failing branch was found: it is replayed and reported; the branches not run stay undecided
     if merged is None or pending:
         cfg = arg[1]
         return {'group': cfg['group'], 'n': 0, 'unsat': 0, 'sat': [], 'unknown': [], 'solver_s': 0, 'queries': 0, 'samples': [], 'extra': {},
-                'error': 'RuntimeError: more than 64 runs needed to decide the ordering comparisons of this configuration', 'cfg': cfg}
+                'error': 'RuntimeError: more than 16 runs / 150 s needed to decide the ordering comparisons of this configuration', 'cfg': cfg}
     return merged
 
 
@@ -106,7 +110,8 @@ def job1(arg, fork):
     events = [list(e) for e in Sym.EQ_EVENTS]
     if fork.constraints or Sym.SIDE:
         assumptions = list(assumptions) + fork.constraints + list(Sym.SIDE)
-    res = decide_job(cfg['group'], obs, assumptions, timeout_ms=cfg.get('timeout_ms', 60000), extra=info)
+    hard = bool(fork.constraints or Sym.SIDE)
+    res = decide_job(cfg['group'], obs, assumptions, timeout_ms=(5000 if hard else cfg.get('timeout_ms', 60000)), extra=info, budget_s=(30 if hard else None))
     res['cfg'] = cfg
     res['eq_events'] = events
     res['build_s'] = time.time() - t0 - res['solver_s']
